@@ -22,7 +22,7 @@ ASSUMPTIONS = ["payload nodes / slices are valid; types_after entries are textbl
 
 
 def cases(tier):
-    return 500 if tier == "quick" else 25000
+    return 3000 if tier == "quick" else 80000
 
 
 def floors(tier):
